@@ -83,3 +83,41 @@ pub fn suffix_offset(whole: &[u8], rest: &[u8]) -> Option<usize> {
         None
     }
 }
+
+
+/// A logger that evaluates and formats every record it is given (and throws the text away): code under test logs through the
+/// `log` facade, and the arguments of a log statement are only evaluated when a logger is enabled at that level - as they are in
+/// an application.  Level from ZVTH_LOG (error | warn | info | debug | trace | off), default error.
+struct FormattingLogger;
+struct NullWriter(usize);
+impl std::fmt::Write for NullWriter {
+    fn write_str(&mut self, s: &str) -> std::fmt::Result {
+        self.0 += s.len();
+        Ok(())
+    }
+}
+impl log::Log for FormattingLogger {
+    fn enabled(&self, _: &log::Metadata) -> bool {
+        true
+    }
+    fn log(&self, record: &log::Record) {
+        use std::fmt::Write;
+        let mut w = NullWriter(0);
+        let _ = write!(w, "{} {}", record.target(), record.args());
+    }
+    fn flush(&self) {}
+}
+static LOGGER: FormattingLogger = FormattingLogger;
+pub fn install_logger() {
+    let level = match std::env::var("ZVTH_LOG").unwrap_or_else(|_| "error".into()).as_str() {
+        "off" => log::LevelFilter::Off,
+        "warn" => log::LevelFilter::Warn,
+        "info" => log::LevelFilter::Info,
+        "debug" => log::LevelFilter::Debug,
+        "trace" => log::LevelFilter::Trace,
+        _ => log::LevelFilter::Error,
+    };
+    if log::set_logger(&LOGGER).is_ok() {
+        log::set_max_level(level);
+    }
+}
